@@ -253,6 +253,34 @@ func ruleXZReaderChecks(c *Ctx, r *Report, prefix string) {
 			buf := stripConv(call.Call.Args[0])
 			ln := bufLen(buf)
 			if ln == nil {
+				// a larger buffer of which the first padLen(n+1) bytes were read: the argument is that
+				// very part p[:padLen(n+1)], or p[:k] with k the count the (successful) ReadFull returned
+				sl, isSl := buf.(*ssa.Slice)
+				if !isSl || sl.Low != nil || sl.High == nil || sl.X.Referrers() == nil {
+					return false
+				}
+				for _, ref := range *sl.X.Referrers() {
+					part, isP := ref.(*ssa.Slice)
+					if !isP || part.Low != nil || part.High == nil || part.Referrers() == nil {
+						continue
+					}
+					pc, ok := stripConv(part.High).(*ssa.Call)
+					if !ok || pc.Call.StaticCallee() != padLen || !roleBinOp(token.ADD, roleAny(), roleConst(1))(pc.Call.Args[0]) {
+						continue
+					}
+					for _, r2 := range *part.Referrers() {
+						rc, isC := r2.(*ssa.Call)
+						if !isC || stdCalleeName(rc) != "io.ReadFull" || rc.Call.Args[1] != ssa.Value(part) {
+							continue
+						}
+						if part == sl {
+							return true
+						}
+						if ex, isE := stripConv(sl.High).(*ssa.Extract); isE && ex.Index == 0 && ex.Tuple == ssa.Value(rc) {
+							return true
+						}
+					}
+				}
 				return false
 			}
 			pc, ok := stripConv(ln).(*ssa.Call)
@@ -287,6 +315,9 @@ func ruleXZReaderChecks(c *Ctx, r *Report, prefix string) {
 				return ok && call.Call.StaticCallee() == uint32LE
 			}, roleIs(sum32), token.NEQ, "stored index CRC32 != CRC32 computed over the index")
 			good := crcRead != nil && theCtx.Dom(sum32.Block(), crcRead.Block()) && (sum32.Block() != crcRead.Block() || instrBefore(sum32, crcRead))
+			if !good && crcRead != nil && len(fn.Params) > 0 && stripConv(crcRead.Call.Args[0]) == ssa.Value(fn.Params[0]) {
+				good = true // the stored CRC is read from the plain reader, not through the tee: it never reaches the hash
+			}
 			r.Check(good, rule, "V15-index-crc-order:"+FnName(fn), c.InstrPos(sum32), "the CRC is taken before the stored CRC bytes pass through the tee reader",
 				"the index CRC32 is taken after the stored CRC bytes were read through the tee reader: it would cover its own bytes")
 			// the hash is seeded with the index indicator byte
@@ -513,8 +544,10 @@ func ruleXZReaderChecks(c *Ctx, r *Report, prefix string) {
 		du, dc := roleFieldLoad(fBHu), roleFieldLoad(fBHc)
 		gUu := o.rel("V23-uncompressed-upper", mu, du, token.GTR, "decoded bytes exceed the declared uncompressed size")
 		gCu := o.rel("V23-compressed-upper", mc, dc, token.GTR, "consumed bytes exceed the declared compressed size")
+		o.inContext = true // V24 applies at the end of the block; V26-clean-eof demands both tests on the clean io.EOF paths
 		gU := o.rel("V24-uncompressed-lower", mu, du, token.LSS, "block ended with fewer decoded bytes than declared")
 		gC := o.rel("V24-compressed-lower", mc, dc, token.LSS, "block ended with fewer consumed bytes than declared")
+		o.inContext = false
 		// the measured size is advanced by exactly what was delivered
 		okAdv := false
 		for _, b := range theCtx.GB(fn) {
@@ -594,6 +627,29 @@ func ruleXZReaderChecks(c *Ctx, r *Report, prefix string) {
 			eqCall = call
 			return true
 		}, false, "stored block check != hash.Sum over the decoded data (the stored bytes must not be overwritten by Sum)")
+		// undeclared: on this path the size field was found negative (not present in the header) where
+		// the guard would have been evaluated
+		undeclared := func(sp *SeqPath, g *guard, decl role) bool {
+			for i := range o.gs {
+				h := &o.gs[i]
+				if h.call != nil || h.site != g.site {
+					continue
+				}
+				if h.site != nil {
+					c.bindParam = nil
+					c.bindCall(h.site.Call.StaticCallee(), h.site)
+				}
+				k, isK := constInt(h.y)
+				if !isK || k != 0 || !decl(h.x) {
+					continue
+				}
+				taken, known := sp.Took(h.iff, h.site)
+				if known && ((h.op == token.LSS && taken) || (h.op == token.GEQ && !taken)) {
+					return true
+				}
+			}
+			return false
+		}
 		// the only clean end of the block is behind V24-V26
 		paths, over := CollectPaths(c, SeqSpec{Fn: fn})
 		if over {
@@ -619,10 +675,23 @@ func ruleXZReaderChecks(c *Ctx, r *Report, prefix string) {
 					if nd.g == nil {
 						continue
 					}
-					var v ssa.Value = nd.call
 					if nd.call == nil {
-						v = nd.g.iff.Cond
+						decl := du
+						if nd.g == gC {
+							decl = dc
+						}
+						meas := mu
+						if nd.g == gC {
+							meas = mc
+						}
+						if o.refutedOn(&sp, meas, decl, token.LSS, nd.g.site) || undeclared(&sp, nd.g, decl) {
+							continue
+						}
+						r.Fail(rule, "V26-clean-eof:"+FnName(fn), c.InstrPos(sp.Exit), "a path reports the clean end of the block (io.EOF) without passing the "+nd.what, sp.Trace...)
+						bad = true
+						break
 					}
+					var v ssa.Value = nd.call
 					bv, known := sp.P.BoolOf(v)
 					if !known || bv != nd.want {
 						r.Fail(rule, "V26-clean-eof:"+FnName(fn), c.InstrPos(sp.Exit), "a path reports the clean end of the block (io.EOF) without passing the "+nd.what, sp.Trace...)
@@ -649,23 +718,15 @@ func ruleXZReaderChecks(c *Ctx, r *Report, prefix string) {
 					}
 					nRet++
 					for _, g := range []*guard{gUu, gCu} {
-						bv, known := sp.P.BoolOf(g.iff.Cond)
-						tested := known && !bv
-						if !known {
-							// `declared >= 0 && measured > declared`: not evaluated when the size is not declared
-							if d := g.iff.Block().Idom(); d != nil && !sp.P.Visited(g.iff.Block()) && sp.P.Visited(d) {
-								if dif, isIf := d.Instrs[len(d.Instrs)-1].(*ssa.If); isIf {
-									if dv, dk := sp.P.BoolOf(dif.Cond); dk {
-										if cmp, isC := dif.Cond.(*ssa.BinOp); isC && (cmp.Op == token.GEQ || cmp.Op == token.LSS) && (du(cmp.X) || dc(cmp.X)) {
-											if k, isK := constInt(cmp.Y); isK && k == 0 && dv == (cmp.Op == token.LSS) {
-												tested = true
-											}
-										}
-									}
-								}
-							}
+						decl := du
+						if g == gCu {
+							decl = dc
 						}
-						if !tested && badU == "" {
+						meas := mu
+						if g == gCu {
+							meas = mc
+						}
+						if !(o.refutedOn(&sp, meas, decl, token.GTR, g.site) || undeclared(&sp, g, decl)) && badU == "" {
 							badU = "a path returns at " + c.InstrPos(sp.Exit) + " without an error although the test at " + c.InstrPos(g.iff) + " (measured size > declared size) was not made on it: a block longer than its header declares is accepted"
 						}
 					}
